@@ -107,6 +107,9 @@ def check(ctx: Ctx) -> None:
         ctx.violation('C18.a', 'RootSequence.__init__', 'the constructor no longer derives Nzc from the prime lookup / builds '
                       'calcBaseZC(Nzc, root_index)', init.path, init.lineno, operand='uses-lookup')
 
+    from ..dsf import auto_memo_check
+    ctx.rule('C18.c', 'no auto-discovered lazily filled cache of the classes in the anchored modules can be stale at the exit of a public method (dependencies = what the fill expression reads, incl. mutating calls on held sub-objects)', floor=4)
+    auto_memo_check(ctx, 'C18.c', [RS, SRS, DMRS, 'pyphysim/reference_signals/channel_estimation.py'])
     # ------------------------------------------------------------------ C18.b
     ctx.rule('C18.b', 'shift grids 8 (SRS) / 12 (DMRS); shift assertion and phase; root tables 30 x 12/24 over {+-1,+-3}', floor=5)
     for path, fname, want in ((SRS, 'get_srs_seq', 8), (DMRS, 'get_dmrs_seq', 12)):
